@@ -1,10 +1,16 @@
 (* driver for m_buffmt
    check <fx3bits> <hexfmt> <tisize> <fields> <itemsize>
-       fields: g:sz:off:dims joined by '/', dims joined by '.', "-" = no dims
+       fields: g:sz:off:dims joined by '/', dims joined by '.', "-" = no dims; a segment may end in *K
+               (K members at off, off+sz, ...)
        -> Accept | Reject | OOB | NullDeref | IntOvf | OutOfFuel
    spec <P body | R pre body post> ... <tisize> <fields> <itemsize>
        tokens joined by ',' ("-" = none): w<code> mN mS0 mS1 mU mB0 mB1 n<hex> i<digits>_<code> p<digits>
-       -> <hex of rendered string> <0|1 spec_accept> <layout k:sz:off;... | None> *)
+               a token may end in *n (n copies)
+       -> <hex of rendered string> <0|1 spec_accept> <layout k:sz:off;... | None>
+   specq P <toks> <tisize> <fields> <itemsize>
+       -> <length of rendered string> <0|1> <None | nitems end first last>   (long layouts)
+   pnum <hexstring>   -> None | <n> <length of rest> | IntOvf          (parse_number)
+   dec <n>            -> hex of (decimal n) *)
 let zl_of_bytes s = List.map z_of_int (ints_of_hex s)
 let leaf_of s =
   match String.split_on_char ':' s with
